@@ -103,6 +103,53 @@ def check(ctx, pieces, cuts, model_res=None, register=True):
     return chunks
 
 
+READ = 4096      # socket_read_task reads at most this many bytes at a time: a burst arrives as full reads + a rest
+
+
+def gen_burst(rng, exact):
+    """A burst of frames longer than one read.  exact: padded (through one Text value) to a whole number of reads, so
+    that the LAST read is a full one as well - nothing follows it, the frames it completes must still be delivered."""
+    def build(extra):
+        pieces = []
+        for i in range(n):
+            body = [[cc.cp("11"), [0, cc.cp("ORD%d" % i)]], [cc.cp("58"), [0, cc.cp("t" * (lens[i] + (extra if i == n - 1 else 0)))]]]
+            pieces.append(("F", cc.encode_frame(rng, [cc.cp("D"), body], seq=i + 1)))
+        return pieces
+    n = rng.randrange(8, 40)
+    lens = [rng.randrange(1, 400) for _ in range(n)]
+    pieces = build(0)
+    if exact:
+        L = sum(len(b) for _, b in pieces)
+        for extra in range((-L) % READ, (-L) % READ + READ + 8):
+            cand = build(extra)
+            if sum(len(b) for _, b in cand) % READ == 0:
+                return cand
+    return pieces
+
+
+def check_raising(ctx, pieces, cuts, raising):
+    """Oracle only: the dispatcher (_process_message) raises for the deliveries numbered in `raising`; every frame must
+    still be handed over exactly once and in order (added after seeded change C10-a: the buffer was advanced only after
+    the dispatcher returned, so a frame whose dispatch raised was never consumed)."""
+    stream = b"".join(b for _, b in pieces)
+    chunks = cc.split_cuts(stream, cuts)
+    try:
+        impl = cc.impl_reader(chunks, raising=raising)
+    except Exception as e:  # noqa: BLE001 - a reader that never parks again is an observation
+        ctx.fail({"pieces": [[k, b.hex()] for k, b in pieces], "cuts": sorted(cuts), "dispatcher_raises_at": sorted(raising)},
+                 "reader did not come to rest: %s" % type(e).__name__, None)
+        return
+    frames = [b for k, b in pieces if k == "F"]
+    got = [bytes(r) for _, r in impl[1]]
+    ctx.case((stream, tuple(sorted(cuts)), tuple(sorted(raising))), True)
+    ctx.count("dispatcher-raises")
+    ctx.traces += 1
+    if got != frames or not residual_ok(pieces, bytes(impl[0])):
+        ctx.fail({"pieces": [[k, b.hex()] for k, b in pieces], "cuts": sorted(cuts), "dispatcher_raises_at": sorted(raising)},
+                 "dispatcher raised at deliveries %s: delivered %d of %d frames (residual buffer %d bytes)"
+                 % (sorted(raising), len(got), len(frames), len(impl[0])), None)
+
+
 def plan(ctx):
     rng = ctx.rng
     jobs = []
@@ -130,6 +177,16 @@ def plan(ctx):
         pieces = gen_stream(rng, True)
         L = sum(len(b) for _, b in pieces)
         jobs.append((pieces, list(range(1, L))))          # 1-byte reads
+    # bursts longer than one read, cut where read(4096) cuts them: full reads, the last one full too (exact) or not,
+    # and the same with one boundary moved by a byte (added after seeded change C03-b: a decoder call skipped after a full read)
+    for i in range(ctx.scale(8, 60)):
+        pieces = gen_burst(rng, exact=(i % 2 == 0))
+        L = sum(len(b) for _, b in pieces)
+        full = list(range(READ, L, READ))
+        jobs.append((pieces, full))
+        if full:
+            j = rng.randrange(len(full))
+            jobs.append((pieces, [c + (rng.choice([-1, 1]) if k == j else 0) for k, c in enumerate(full)]))
     return jobs
 
 
@@ -142,6 +199,17 @@ def run(ctx):
         model_out = ctx.model.batch(reqs)
     for (p, c), mo in zip(jobs, model_out):
         check(ctx, p, c, mo)
+    rng = ctx.rng
+    for _ in range(ctx.scale(40, 400)):
+        pieces = gen_stream(rng, False, junk=0.1)
+        nf = sum(1 for k, _ in pieces if k == "F")
+        L = sum(len(b) for _, b in pieces)
+        # ONE failing dispatch, and one more frame arriving in a read of its own afterwards: the reader goes back to
+        # read() after the logged exception, so what was buffered behind the failing frame is decoded with the next read
+        raising = {rng.randrange(1, nf + 1)}
+        cuts = rng.sample(range(1, L), min(rng.choice([0, 0, 1, 2, 5]), L - 1)) + [L]
+        pieces = pieces + [("F", cc.encode_frame(rng, [cc.cp("0"), []]))]
+        check_raising(ctx, pieces, cuts, raising)
 
 
 def corpus():
@@ -170,7 +238,7 @@ def search(ctx, cases):
             return
 
 
-def replay(path):
+def replay(path):  # noqa: C901
     logging.disable(logging.CRITICAL)
     rec = json.load(open(path))
     c = rec.get("input")
@@ -179,7 +247,7 @@ def replay(path):
         return 1
     pieces = [(k, bytes.fromhex(h)) for k, h in c["pieces"]]
     stream = b"".join(b for _, b in pieces)
-    impl = cc.impl_reader(cc.split_cuts(stream, c["cuts"]))
+    impl = cc.impl_reader(cc.split_cuts(stream, c["cuts"]), raising=set(c.get("dispatcher_raises_at", ())))
     frames = [b for k, b in pieces if k == "F"]
     got = [bytes(r) for _, r in impl[1]]
     print("stream of %d frames, cuts %s -> delivered %d, residual %d bytes" % (len(frames), c["cuts"], len(got), len(impl[0])))
